@@ -46,6 +46,9 @@ P_Count.vos P_Count.vok P_Count.required_vos: P_Count.v Ast.vos Generated.vos Co
 P_CountGlobal.vo P_CountGlobal.glob P_CountGlobal.v.beautified P_CountGlobal.required_vo: P_CountGlobal.v Ast.vo Generated.vo Config.vo Model.vo HookSites.vo WfTree.vo P_OpVisit.vo P_Kinds.vo P_Telemetry.vo P_Count.vo
 P_CountGlobal.vio: P_CountGlobal.v Ast.vio Generated.vio Config.vio Model.vio HookSites.vio WfTree.vio P_OpVisit.vio P_Kinds.vio P_Telemetry.vio P_Count.vio
 P_CountGlobal.vos P_CountGlobal.vok P_CountGlobal.required_vos: P_CountGlobal.v Ast.vos Generated.vos Config.vos Model.vos HookSites.vos WfTree.vos P_OpVisit.vos P_Kinds.vos P_Telemetry.vos P_Count.vos
+P_CountProgram.vo P_CountProgram.glob P_CountProgram.v.beautified P_CountProgram.required_vo: P_CountProgram.v Ast.vo Generated.vo Config.vo Model.vo HookSites.vo WfTree.vo P_OpVisit.vo P_Kinds.vo P_Telemetry.vo P_Count.vo P_CountGlobal.vo P_Program.vo
+P_CountProgram.vio: P_CountProgram.v Ast.vio Generated.vio Config.vio Model.vio HookSites.vio WfTree.vio P_OpVisit.vio P_Kinds.vio P_Telemetry.vio P_Count.vio P_CountGlobal.vio P_Program.vio
+P_CountProgram.vos P_CountProgram.vok P_CountProgram.required_vos: P_CountProgram.v Ast.vos Generated.vos Config.vos Model.vos HookSites.vos WfTree.vos P_OpVisit.vos P_Kinds.vos P_Telemetry.vos P_Count.vos P_CountGlobal.vos P_Program.vos
 P_Directives.vo P_Directives.glob P_Directives.v.beautified P_Directives.required_vo: P_Directives.v Ast.vo Generated.vo Config.vo Model.vo Directives.vo P_OpVisit.vo P_Kinds.vo
 P_Directives.vio: P_Directives.v Ast.vio Generated.vio Config.vio Model.vio Directives.vio P_OpVisit.vio P_Kinds.vio
 P_Directives.vos P_Directives.vok P_Directives.required_vos: P_Directives.v Ast.vos Generated.vos Config.vos Model.vos Directives.vos P_OpVisit.vos P_Kinds.vos
@@ -151,9 +154,9 @@ Properties/C13.vos Properties/C13.vok Properties/C13.required_vos: Properties/C1
 Properties/C14.vo Properties/C14.glob Properties/C14.v.beautified Properties/C14.required_vo: Properties/C14.v Ast.vo Generated.vo Literals.vo P_Literals.vo
 Properties/C14.vio: Properties/C14.v Ast.vio Generated.vio Literals.vio P_Literals.vio
 Properties/C14.vos Properties/C14.vok Properties/C14.required_vos: Properties/C14.v Ast.vos Generated.vos Literals.vos P_Literals.vos
-Properties/C15.vo Properties/C15.glob Properties/C15.v.beautified Properties/C15.required_vo: Properties/C15.v Ast.vo Generated.vo Config.vo Model.vo HookSites.vo WfTree.vo P_Telemetry.vo P_Count.vo P_CountGlobal.vo
-Properties/C15.vio: Properties/C15.v Ast.vio Generated.vio Config.vio Model.vio HookSites.vio WfTree.vio P_Telemetry.vio P_Count.vio P_CountGlobal.vio
-Properties/C15.vos Properties/C15.vok Properties/C15.required_vos: Properties/C15.v Ast.vos Generated.vos Config.vos Model.vos HookSites.vos WfTree.vos P_Telemetry.vos P_Count.vos P_CountGlobal.vos
+Properties/C15.vo Properties/C15.glob Properties/C15.v.beautified Properties/C15.required_vo: Properties/C15.v Ast.vo Generated.vo Config.vo Model.vo HookSites.vo WfTree.vo P_Telemetry.vo P_Count.vo P_CountGlobal.vo P_CountProgram.vo
+Properties/C15.vio: Properties/C15.v Ast.vio Generated.vio Config.vio Model.vio HookSites.vio WfTree.vio P_Telemetry.vio P_Count.vio P_CountGlobal.vio P_CountProgram.vio
+Properties/C15.vos Properties/C15.vok Properties/C15.required_vos: Properties/C15.v Ast.vos Generated.vos Config.vos Model.vos HookSites.vos WfTree.vos P_Telemetry.vos P_Count.vos P_CountGlobal.vos P_CountProgram.vos
 Properties/C16.vo Properties/C16.glob Properties/C16.v.beautified Properties/C16.required_vo: Properties/C16.v Ast.vo Generated.vo Config.vo Model.vo
 Properties/C16.vio: Properties/C16.v Ast.vio Generated.vio Config.vio Model.vio
 Properties/C16.vos Properties/C16.vok Properties/C16.required_vos: Properties/C16.v Ast.vos Generated.vos Config.vos Model.vos
